@@ -226,6 +226,12 @@ def run(ctx):
                 rnd.shuffle(order)
                 order += [rnd.randrange(k) for _ in range(rnd.randint(0, 3))]
             traces.append(_assembly(n, k, order, rnd, tmp, sigmoid=rnd.random() < 0.7))
+        # a dozen or more posterior samples cut into more chunks than rows (chunks that lie inside one row, sample indexes of two digits),
+        # every chunk loaded, so that the assembled matrix is compared entry by entry
+        for n, k in ([(12, 22), (12, 33), (13, 50), (11, 55)] if ctx.quick else [(12, 22), (12, 33), (13, 50), (11, 55), (16, 120), (14, 40), (20, 97), (17, 136)]):
+            order = list(range(k))
+            rnd.shuffle(order)
+            traces.append(_assembly(n, k, order, rnd, tmp, sigmoid=rnd.random() < 0.5, dup=False))
         # hundreds of posterior samples in small chunks (production: 10 chains x 100 samples): three of the chunk files through
         # save / load / combine, the incomplete matrix must refuse
         big_n, big_k = (260, 300) if ctx.quick else (420, 900)
